@@ -386,6 +386,54 @@ class _KernelTransformer(ast.NodeTransformer):
         return [fdef, setter, call]
 
 
+THREAD_QUERIES = ("get_num_threads", "get_thread_id", "NUMBA_NUM_THREADS", "NUMBA_DEFAULT_NUM_THREADS")
+
+
+class NumbaShim(object):
+    """Stands in for the `numba` module inside interpreted kernels: the parallel runtime's answers to
+    "how many threads are there / which one am I" come from the simulator, everything else is numba's."""
+
+    def __init__(self, real, sim_getter):
+        object.__setattr__(self, "_real", real)
+        object.__setattr__(self, "_sim_getter", sim_getter)
+
+    def get_num_threads(self):
+        sim = self._sim_getter()
+        n = getattr(sim, "declared_threads", None) if sim is not None else None
+        return self._real.get_num_threads() if n is None else n
+
+    def get_thread_id(self):
+        sim = self._sim_getter()
+        run = getattr(sim, "run_ctx", None) if sim is not None else None
+        return 0 if run is None or run.current is None else int(run.current)
+
+    def __getattr__(self, name):
+        return getattr(self._real, name)
+
+
+def uses_thread_queries(py_func):
+    src = textwrap.dedent(inspect.getsource(py_func))
+    tree = ast.parse(src)
+    for node in ast.walk(tree):
+        if isinstance(node, ast.Attribute) and node.attr in THREAD_QUERIES:
+            return True
+        if isinstance(node, ast.Name) and node.id in THREAD_QUERIES:
+            return True
+    return False
+
+
+def install_numba_shim(ns, module_dict):
+    """Bind every global name of the module that is the numba package to a shim in the kernel's namespace."""
+    import numba as _real_numba
+
+    for name, val in list(module_dict.items()):
+        if val is _real_numba:
+            ns[name] = NumbaShim(_real_numba, lambda ns=ns: ns.get("__sim"))
+    for q in ("get_num_threads", "get_thread_id"):
+        if module_dict.get(q) is getattr(_real_numba, q, object()):
+            ns[q] = getattr(NumbaShim(_real_numba, lambda ns=ns: ns.get("__sim")), q)
+
+
 def transform_kernel(py_func, module_dict):
     """Return (python function, [RegionInfo]) for a prange kernel's original source."""
     src = textwrap.dedent(inspect.getsource(py_func))
@@ -400,6 +448,7 @@ def transform_kernel(py_func, module_dict):
     ast.fix_missing_locations(tree)
     code = compile(tree, "<sim:%s>" % py_func.__name__, "exec")
     ns = _Fallback(module_dict)
+    install_numba_shim(ns, module_dict)
     exec(code, ns)
     return ns["__simfn_" + py_func.__name__], kt.regions, ns
 
